@@ -51,7 +51,7 @@ void t_agent(void)
   if (t) {
     __CPROVER_assert(vp_tr[0].tracer == t && vp_tr[0].file == nm_file && vp_tr[0].line == l.line, "[C17] POST trace_agent.record_goes_to_that_tracer_with_the_expectation_location");
     struct vp_string *m = &vp_tr[0].msg;
-    __CPROVER_assert(m->n >= 2 && m->t[0].kind == VP_T_CSTR && m->t[0].p == nm_name, "[C17] POST trace_agent.record_starts_with_the_expectation_text");
+    __CPROVER_assert(m->n >= 1 && m->t[0].kind == VP_T_CSTR && m->t[0].p == nm_name, "[C17] POST trace_agent.record_starts_with_the_expectation_text");
     /* ... then "param _1 = <actual argument>", then " -> <value>" or the exception note.  Integer tokens in order:
        the parameter index (1), the argument value, and for a returned value that value */
     long ints[3]; int n_int = 0; int what_pos = -1, arg_pos = -1;
